@@ -148,9 +148,16 @@ Definition step (lim : limits) (s : mstate) (o : op) : mstate :=
               m_dropped := d; m_events := m_events s; m_evdropped := m_evdropped s;
               m_links := m_links s; m_lkdropped := m_lkdropped s; m_meta := m_meta s |}
        | OAddEvent name ts attrs => add_event lim s name ts attrs
-       | ORecordError typ msg ts attrs =>
+       | ORecordError typ msg ts attrs stack =>
+           (* opts ++ WithAttributes(type, message) ++ (if c.StackTrace() then WithAttributes(stacktrace)) *)
            add_event lim s (str "exception") ts
-             (attrs ++ [(str "exception.type", VStr typ); (str "exception.message", VStr msg)])
+             (attrs ++ [(str "exception.type", VStr typ); (str "exception.message", VStr msg)] ++
+              (if stack then [stack_attr] else []))
+       | ORead =>
+           (* Attributes() on the live span de-duplicates s.attributes in place; Events()/Links() copy *)
+           {| m_ended := m_ended s; m_name := m_name s; m_status := m_status s; m_attrs := dedupe (m_attrs s);
+              m_dropped := m_dropped s; m_events := m_events s; m_evdropped := m_evdropped s;
+              m_links := m_links s; m_lkdropped := m_lkdropped s; m_meta := m_meta s |}
        | OAddLink ctx ts attrs => add_link lim s ctx ts attrs
        | OSetStatus code desc => set_status s code desc
        | OSetName name =>
